@@ -27,6 +27,7 @@ from ._actions import (
     _ActionConfigLoad,
     _ActionPrintConfig,
     _ActionSubCommands,
+    _check_subcommand_settings,
     _find_action,
     _find_action_and_subcommand,
     _find_parent_action_and_subcommand,
@@ -1427,6 +1428,7 @@ class ArgumentParser(ParserDeprecations, ActionsContainer, ArgumentLinking, argp
             if leaf_key == action.dest:
                 return value
             subparser = action._name_parser_map[leaf_key]  # type: ignore[attr-defined]
+            _check_subcommand_settings(key, value)
             subparser.validate(value, _prefix=key + ".")
         elif isinstance(action, _ActionConfigLoad):
             if isinstance(value, str):
